@@ -26,6 +26,16 @@ Proof.
 Qed.
 Print Assumptions C45_no_new_connections.
 
+(* ... and a step after the shutdown starts at most one connection attempt (that of a task queued before the shutdown, which
+   then sees the flag): a walk over the query plan never goes on to further hosts after Cluster.shutdown *)
+Theorem C45_no_late_attempts : forall n os o, let s := run (init n) os in
+  cl_down s = true -> attempts (fst (step s o)) <= S (attempts s).
+Proof.
+  intros n os o s Hc. destruct (C45_shutdown_is_total n os Hc) as (A & B & C).
+  exact (one_late_attempt s o Hc A B C).
+Qed.
+Print Assumptions C45_no_late_attempts.
+
 Theorem C45_requests_refused : forall s h, sess_down s = true ->
   step s ORequest = (s, Refused) /\ step s OSubmit = (s, Refused) /\ step s (OPoolTask h) = (s, Refused) /\
   snd (step s (OReplace h)) <> Accepted.
